@@ -252,7 +252,14 @@ func init() {
 		"(time.Time).Unix":         func(m *Machine, c *frame, fn *ssa.Function, a []value) value { return mkConst(64, 0) },
 		"(time.Duration).Nanoseconds": func(m *Machine, c *frame, fn *ssa.Function, a []value) value { return a[0] },
 		// math/rand: nondeterministic
-		"math/rand.Uint32": func(m *Machine, c *frame, fn *ssa.Function, a []value) value { return m.fresh("rand.Uint32", 32) },
+		"math/rand.Uint32": func(m *Machine, c *frame, fn *ssa.Function, a []value) value {
+			// nondeterministic; code that redraws on collision is explored for up to 3 draws per path
+			m.randDraws++
+			if m.randDraws > 3 {
+				m.outside("more than 3 rand.Uint32 draws on one path")
+			}
+			return m.fresh("rand.Uint32", 32)
+		},
 		"math/rand.Uint64": func(m *Machine, c *frame, fn *ssa.Function, a []value) value { return m.fresh("rand.Uint64", 64) },
 		"math/rand.Int":    func(m *Machine, c *frame, fn *ssa.Function, a []value) value {
 			t := m.fresh("rand.Int", 64)
@@ -857,3 +864,5 @@ func (m *Machine) modelMethod(recv ifaceV, meth *types.Func) value {
 
 var _ = sort.Strings
 var _ = os.Getpid
+
+func (m *Machine) randBudgetScale() int { return 2 }
